@@ -15,6 +15,7 @@ ASSUMPTIONS = ["clipping cases with a datum within 1e-12 (relative) of the thres
                "weighted-median cases with a cumulative weight within 1e-12 of half the total are skipped unless weights are integer valued",
                "subsets whose weights sum to zero are not generated"]
 THOROUGH_ROUNDS = 15      # the thorough tier runs the generator over this many derived seeds
+CASE_TIMEOUT = 600
 REQUIRED = {"quick": {"C18.wmom": 600, "C18.wmedian": 300, "C18.sigma_clip": 400, "C18.interplin": 300,
                       "C18.get_stats": 200, "C18.covcor": 150},
             "thorough": {"C18.wmom": 12000, "C18.wmedian": 6000, "C18.sigma_clip": 8000, "C18.interplin": 6000,
@@ -29,7 +30,7 @@ def cases(seed, tier):
     for i in range(n):
         yield {"family": FAMS[i % len(FAMS)], "sub": int(rng.integers(0, 2**31))}
     for i in range(1 if tier == "quick" else 6):
-        yield {"family": "big", "sub": int(rng.integers(0, 2**31)), "first": i == 0, "cap": 2 ** 21 + 1 if tier == "quick" else None}
+        yield {"family": "big", "sub": int(rng.integers(0, 2**31)), "first": i == 0, "cap": 2 ** 21 + 1 if tier == "quick" else 5 * 10 ** 6 + 3}
 
 
 def close(got, exp, scale, rtol=1e-12):
